@@ -52,6 +52,11 @@ func NewURLKeyer() URLKeyer { return URLKeyerFunc(makeURLKey) }
 //   - RFC 7230 §2.7.3: https://datatracker.ietf.org/doc/html/rfc7230#section-2.7.3
 func makeURLKey(u *url.URL) string {
 	if u.Opaque != "" {
+		if u.Host != "" {
+			// net/http sends such a request to u.Host with the opaque part as
+			// its request-target: the opaque part alone does not name the resource.
+			return strings.ToLower(u.Scheme) + "://" + strings.ToLower(u.Host) + "!" + normalizePercentEncoding(u.Opaque)
+		}
 		return u.Opaque
 	}
 	// RFC 3986 §6.2.2.3: Path normalization (dot-segment removal) is handled by
